@@ -23,7 +23,7 @@ ASSUMPTIONS = [
 @st.composite
 def _settings(draw, c, g=None):
     if g is not None:
-        c["mrts"] = draw(gen.mrts_for(g))
+        c["mrts"] = draw(gen.mrts_for(g, allow_auto=True))
         c["max_tau"] = draw(gen.maxtau_for(g))
         c["interval"] = draw(gen.interval_arg_for(g))
     else:
@@ -47,6 +47,17 @@ def _settings(draw, c, g=None):
 def _dyadic(draw, tier):
     g = draw(gen.int_train_lists(2, 2, related=draw(st.sampled_from([False, True])),
                                  **gen.sizes(tier)))
+    if draw(st.integers(0, 15)) == 0 and not g.get("fine"):
+        # a long train that falls silent early against a train that only spikes late
+        # (a bursting cell next to a late responder): the nearest-spike search runs
+        # past the end of the long train
+        k = draw(st.integers(20, 48))
+        n = max(g["n"], 2 * k + 8)
+        burst = sorted(draw(st.lists(st.integers(1, n // 2), min_size=k, max_size=k,
+                                     unique=True)))
+        late = sorted(set(draw(st.lists(st.integers(n // 2 + n // 4, n), min_size=1,
+                                        max_size=2))))
+        g = dict(q=g["q"], k0=g["k0"], n=n, trains=[burst, late][::draw(st.sampled_from([1, -1]))])
     c = gen.to_times(g)
     c["domain"] = "dyadic"
     c["identity"] = draw(st.sampled_from([None, None, None, "same", "copy", "equal"]))
@@ -112,15 +123,25 @@ def nontrivial(case):
 SLACK = 1e-12
 
 
-def _in01(v):
+def _in01(v, slack=SLACK):
     v = np.asarray(v, dtype=float)
-    return bool(np.all(np.isfinite(v)) and np.all(v >= -SLACK) and np.all(v <= 1 + SLACK))
+    return bool(np.all(np.isfinite(v)) and np.all(v >= -slack) and np.all(v <= 1 + slack))
 
 
 def run_case(case, ctx):
     import pyspike
     ctx.set_backend(case["compiled"])
     st1, st2 = ps.trains(case)
+    if not case["identity"]:
+        # an unrelated earlier call, in ONE argument order only, with a train that has
+        # the same number of spikes and the same sum of spike times as the first one:
+        # whatever it leaves behind must not make f(a,b) and f(b,a) differ
+        pr = ps.sibling_same_count_and_sum(case)
+        if pr is not None:
+            p1 = ps.trains(pr)[0]
+            for meas in ("ISI", "SPIKE", "SYNC"):
+                fnp = M.funcs(meas)
+                ctx.call("priming_call", fnp["dist"], p1, st2, **M.kwargs_for(meas, case))
     if case["identity"] == "same":
         st2 = st1
     elif case["identity"] == "copy":
@@ -154,9 +175,14 @@ def run_case(case, ctx):
         ctx.check(same, "swap_symmetry:%s_profile" % meas,
                   lambda: "%s(a,b) x=%r ; %s(b,a) x=%r (values differ)"
                   % (meas, list(f.x), meas, list(g.x)))
-        ctx.check(_in01([d]), "range:%s_value" % meas,
+        slack = SLACK
+        if iv is not None:
+            # integral / (tiny interval length) amplifies rounding of the integral
+            ln = float(sum(b - a for a, b in M.intervals_list(case["interval"])))
+            slack = max(SLACK, 1e-13 * (case["t1"] - case["t0"]) / ln)
+        ctx.check(_in01([d], slack), "range:%s_value" % meas,
                   lambda: "%s value %r interval=%r" % (meas, d, case["interval"]))
-        ctx.check(ps.close(ds, float(d), 1e-12), "swap_symmetry:%s_value" % meas,
+        ctx.check(ps.close(ds, float(d), max(1e-12, slack)), "swap_symmetry:%s_value" % meas,
                   lambda: "%s(a,b)=%r %s(b,a)=%r" % (meas, d, meas, ds))
     kwo = M.kwargs_for("ORDER", case)
     o = ctx.call("order_value", pyspike.spike_train_order, st1, st2, **kwo)
